@@ -25,8 +25,8 @@ type Violation struct {
 // RunOut is what one simulated run reports.
 type RunOut struct {
 	Violations   []Violation    `json:"violations,omitempty"`
-	Foreign      []Violation    `json:"-"` // verdicts that belong to another property than the one under check
-	Reach        map[string]int `json:"reach,omitempty"`  // reach probes / faults fired in this run
+	Foreign      []Violation    `json:"-"`               // verdicts that belong to another property than the one under check
+	Reach        map[string]int `json:"reach,omitempty"` // reach probes / faults fired in this run
 	Steps        int            `json:"steps"`
 	SimSeconds   float64        `json:"sim_s"`
 	Hash         uint64         `json:"hash"`  // digest of schedule + outputs
@@ -54,40 +54,40 @@ type Case func(t *testing.T, ch *Choices, prop string, tier string, render bool)
 
 // Replay is the on-disk replay file.
 type Replay struct {
-	Property  string     `json:"property"`
-	Engine    string     `json:"engine"`
-	Family    string     `json:"family"`
-	Tier      string     `json:"tier"`
-	Seed      uint64     `json:"seed"`
-	Run       uint64     `json:"run"`
-	Choices   []int      `json:"choices"`
-	Violation *Violation `json:"violation"`
-	Shrunk    bool       `json:"shrunk"`
-	ShrinkTries int      `json:"shrink_tries"`
-	OrigLen   int        `json:"orig_len"`
-	Rendered  any        `json:"rendered"`
+	Property    string     `json:"property"`
+	Engine      string     `json:"engine"`
+	Family      string     `json:"family"`
+	Tier        string     `json:"tier"`
+	Seed        uint64     `json:"seed"`
+	Run         uint64     `json:"run"`
+	Choices     []int      `json:"choices"`
+	Violation   *Violation `json:"violation"`
+	Shrunk      bool       `json:"shrunk"`
+	ShrinkTries int        `json:"shrink_tries"`
+	OrigLen     int        `json:"orig_len"`
+	Rendered    any        `json:"rendered"`
 }
 
 // Summary is what a worker prints at the end (one JSON line prefixed with "SUMMARY ").
 type Summary struct {
-	Property     string         `json:"property"`
-	Engine       string         `json:"engine"`
-	Family       string         `json:"family"`
-	Runs         int            `json:"runs"`
-	Steps        int64          `json:"steps"`
-	SimSeconds   float64        `json:"sim_s"`
-	WallSeconds  float64        `json:"wall_s"`
-	Reach        map[string]int `json:"reach"`
-	Strategies   map[string]int `json:"strategies"`
-	Inconclusive map[string]int `json:"inconclusive"`
-	Foreign      map[string]int `json:"foreign"`
-	ForeignMsg   map[string]string `json:"foreign_msg"`
-	Hashes       []uint64       `json:"hashes"`     // distinct schedule/trace digests
-	NonTrivial   []uint64       `json:"nontrivial"` // distinct (shape^hash) of runs that reached the trigger condition
-	Shapes       []uint64       `json:"shapes"`
-	Samples      []any          `json:"samples"`
-	Violations   []ViolationRec `json:"violations"`
-	HarnessErrors []string      `json:"harness_errors"`
+	Property      string            `json:"property"`
+	Engine        string            `json:"engine"`
+	Family        string            `json:"family"`
+	Runs          int               `json:"runs"`
+	Steps         int64             `json:"steps"`
+	SimSeconds    float64           `json:"sim_s"`
+	WallSeconds   float64           `json:"wall_s"`
+	Reach         map[string]int    `json:"reach"`
+	Strategies    map[string]int    `json:"strategies"`
+	Inconclusive  map[string]int    `json:"inconclusive"`
+	Foreign       map[string]int    `json:"foreign"`
+	ForeignMsg    map[string]string `json:"foreign_msg"`
+	Hashes        []uint64          `json:"hashes"`     // distinct schedule/trace digests
+	NonTrivial    []uint64          `json:"nontrivial"` // distinct (shape^hash) of runs that reached the trigger condition
+	Shapes        []uint64          `json:"shapes"`
+	Samples       []any             `json:"samples"`
+	Violations    []ViolationRec    `json:"violations"`
+	HarnessErrors []string          `json:"harness_errors"`
 }
 
 type ViolationRec struct {
@@ -253,6 +253,7 @@ func WorkerMain(t *testing.T, engine, family string, c Case) {
 	}
 	dump := Cfg("VERIF_DUMP") != ""
 	maxShrink := int(envInt("VERIF_SHRINK_TRIES", 200))
+	shrinkWall := time.Duration(envInt("VERIF_SHRINK_WALL_S", 45)) * time.Second
 	known := loadKnown(Cfg("VERIF_KNOWN"))
 
 	sum := &Summary{Property: prop, Engine: engine, Family: family, Reach: map[string]int{}, Strategies: map[string]int{}, Inconclusive: map[string]int{}, Foreign: map[string]int{}, ForeignMsg: map[string]string{}}
@@ -318,8 +319,14 @@ func WorkerMain(t *testing.T, engine, family string, c Case) {
 			// minimise: same property and same signature
 			orig := append([]int(nil), ch.Rec...)
 			vv := v
+			shrinkStart := time.Now()
 			test := func(list []int) (bool, []int) {
 				tick()
+				// minimisation is bounded in wall-clock time too (a violation whose runs are slow -- runaway
+				// recursion up to the step cap -- must not eat the batch); what is kept is replayed exactly either way
+				if time.Since(shrinkStart) > shrinkWall {
+					return false, nil
+				}
 				c2 := NewReplayChoices(list)
 				c2.Max = 200000
 				o2 := c(t, c2, prop, tier, false)
